@@ -11,12 +11,17 @@ EXTENDS Naturals, Sequences, FiniteSets, TLC, Json
 CONSTANTS MaxOps, Emit,
           BasicChecksSparse, BasicChecksNlink, BasicChecksStart, BasicChecksSize,     \* the refusals of make_basic (TRUE as built)
           ExtKeepsFrag,                                                                \* make_extended carries the fragment location over (TRUE as built)
-          ListOnStack                                                                  \* deviation (pinned tree before fix 9497206): the block size list is copied to the stack in one piece
+          ListOnStack,                                                                 \* deviation (pinned tree before fix 9497206): the block size list is copied to the stack in one piece
+          Kind,                      \* "file" (everything above) | "dir" | "slink" | "dev" | "ipc": the other kinds only have a link count and an xattr index
+          IpcExtInitsDevField        \* TRUE as built: make_extended() on a fifo / socket initialises dev_ext.xattr_idx, the index of these kinds lives in
+                                     \* ipc_ext (4 bytes earlier) and stays 0 - harmless for the only caller, set_xattr_index(), which overwrites it
 
 Val == {"zero", "lo", "max", "hi", "huge"}
 Fits32(v) == v \notin {"hi", "huge"}
-Ops == {<<"size", v>> : v \in Val} \cup {<<"start", v>> : v \in Val} \cup {<<"frag", f>> : f \in {"none", "some"}}
-       \cup {<<"xattr", x>> : x \in {"none", "some"}} \cup {<<"sparse">>, <<"nlink", 1>>, <<"nlink", 2>>, <<"ext">>, <<"basic">>}
+Ops == IF Kind = "file"
+       THEN {<<"size", v>> : v \in Val} \cup {<<"start", v>> : v \in Val} \cup {<<"frag", f>> : f \in {"none", "some"}}
+            \cup {<<"xattr", x>> : x \in {"none", "some"}} \cup {<<"sparse">>, <<"nlink", 1>>, <<"nlink", 2>>, <<"ext">>, <<"basic">>}
+       ELSE {<<"xattr", x>> : x \in {"none", "some"}} \cup {<<"nlink", 1>>, <<"nlink", 2>>, <<"ext">>, <<"basic">>}
 
 VARIABLES prog, pc,
           ext,                       \* form
@@ -28,7 +33,7 @@ vars == <<prog, pc, ext, size, start, frag, sparse, nlink, xattr, want, trunc>>
 
 Init == /\ \E n \in 1..MaxOps : prog \in [1..n -> Ops]
         /\ pc = 1 /\ ext = FALSE /\ size = "zero" /\ start = "zero" /\ frag = "none"
-        /\ sparse = FALSE /\ nlink = 1 /\ xattr = "none"
+        /\ sparse = FALSE /\ nlink = 1 /\ xattr = (IF Kind = "ipc" /\ IpcExtInitsDevField THEN "zero" ELSE "none")     \* ipc: the bytes of a fresh (zeroed) inode where ipc_ext keeps its index
         /\ want = [size |-> "zero", start |-> "zero", frag |-> "none", sparse |-> FALSE, nlink |-> 1, xattr |-> "none"]
         /\ trunc = FALSE
 
@@ -46,7 +51,19 @@ Promote == IF ext THEN UNCHANGED <<ext, sparse, nlink, xattr, frag>>
 
 Do == /\ pc <= Len(prog)
       /\ LET op == prog[pc] IN
-         CASE op[1] = "size" ->                            \* sqfs_inode_set_file_size
+         CASE Kind # "file" ->                            \* directory / symlink / device / fifo, socket: link count in both forms, xattr index in the extended one
+                /\ UNCHANGED <<size, start, frag, sparse, trunc>>
+                /\ (CASE op[1] = "xattr" -> /\ want' = [want EXCEPT !.xattr = op[2]]
+                                            /\ IF op[2] = "some" THEN ext' = TRUE /\ xattr' = "some"
+                                               ELSE xattr' = (IF ext THEN "none" ELSE xattr) /\ ext' = ext
+                                            /\ nlink' = nlink
+                     [] op[1] = "nlink" -> nlink' = op[2] /\ want' = [want EXCEPT !.nlink = op[2]] /\ UNCHANGED <<ext, xattr>>
+                     [] op[1] = "ext" -> /\ ext' = TRUE /\ nlink' = nlink
+                                         /\ xattr' = IF ext THEN xattr ELSE IF Kind = "ipc" /\ IpcExtInitsDevField THEN xattr ELSE "none"      \* as built: whatever the 4 bytes held
+                                         /\ want' = want
+                     [] OTHER -> /\ IF ext /\ xattr = "none" THEN ext' = FALSE ELSE ext' = ext          \* make_basic: only without an xattr index
+                                 /\ UNCHANGED <<xattr, nlink, want>>)
+           [] op[1] = "size" ->                            \* sqfs_inode_set_file_size
                 /\ size' = op[2] /\ want' = [want EXCEPT !.size = op[2]]
                 /\ UNCHANGED <<start, frag>>
                 /\ IF ext /\ op[2] \in {"zero", "lo"} /\ xattr = "none" /\ (~BasicChecksStart \/ Fits32(start))
@@ -97,13 +114,16 @@ Next == Do \/ (pc > Len(prog) /\ UNCHANGED vars)
 Spec == Init /\ [][Next]_vars
 
 (* what a reader of the serialised inode gets *)
-Got == [size |-> size, start |-> start, frag |-> frag, sparse |-> (ext /\ sparse), nlink |-> (IF ext THEN nlink ELSE 1),
+Got == [size |-> size, start |-> start, frag |-> frag, sparse |-> (ext /\ sparse), nlink |-> (IF ext \/ Kind # "file" THEN nlink ELSE 1),
         xattr |-> (IF ext THEN xattr ELSE "none")]
 Faithful == Got = want
+(* the call sequences the tools make never call make_extended() directly on these kinds: set_xattr_index() does, and stores the index *)
+NoBareExt == \A i \in 1..(pc - 1) : prog[i][1] # "ext"
+FaithfulViaSetters == NoBareExt => Got = want
 BasicHoldsAll == ~ext => (Fits32(size) /\ Fits32(start))
 NoTruncation == ~trunc
 (* writing the inode: the block size list has one entry per block of the file, however many that are *)
 Written == IF ListOnStack /\ size = "huge" THEN "crash" ELSE "ok"
 SerialisesAnyLength == pc > Len(prog) => Written = "ok"
-EmitOK == (Emit /\ pc > Len(prog)) => PrintT(<<"RESULT", ToJson([prog |-> prog, ext |-> ext, got |-> Got])>>)
+EmitOK == (Emit /\ pc > Len(prog)) => PrintT(<<"RESULT", ToJson([kind |-> Kind, prog |-> prog, ext |-> ext, got |-> Got])>>)
 =============================================================================
